@@ -53,6 +53,7 @@ structure Site where
   rows : List Row
   tombs : List Tomb
   idx : List (Slot × Word)      -- the index, as a set
+  refs : List (Nat × Nat)       -- references `kids` between `Doc` rows: (parent, child)
   logged : List Ent             -- entities having a daily-log entry (what a peer asks for)
   indexOn : Ent → Bool          -- the flag the engine uses
   declared : Nat                -- model version in force (bit 0: Doc declared without index, bit 1: Note with)
@@ -62,7 +63,7 @@ def declaredOn (v : Nat) (e : Ent) : Bool :=
   if e = 0 then v % 2 = 0 else (v / 2) % 2 = 1
 
 def Site.empty : Site :=
-  { rows := [], tombs := [], idx := [], logged := [], indexOn := declaredOn 0, declared := 0 }
+  { rows := [], tombs := [], idx := [], refs := [], logged := [], indexOn := declaredOn 0, declared := 0 }
 
 structure State where
   d : Defects
@@ -116,6 +117,34 @@ def search (s : Site) (e : Ent) (t : Word) : List Nat :=
 def matching (s : Site) (e : Ent) (t : Word) : List Nat :=
   (s.rows.filter fun r => r.ent = e && r.text.contains t).map (·.n)
 
+def insertNat (w : Nat) : List Nat → List Nat
+  | [] => [w]
+  | h :: t => if w ≤ h then w :: h :: t else h :: insertNat w t
+
+def sortNat (l : List Nat) : List Nat := l.foldl (fun acc w => insertNat w acc) []
+
+def insertPair (x : Nat × List Nat) : List (Nat × List Nat) → List (Nat × List Nat)
+  | [] => [x]
+  | h :: t => if x.1 ≤ h.1 then x :: h :: t else h :: insertPair x t
+
+/-- the `Doc` children of `p` (through `kids`) selected by `f`, as sorted row numbers -/
+def kidsOf (s : Site) (p : Row) (f : Row → Bool) : List Nat :=
+  sortNat ((s.rows.filter fun c => c.ent = 0 && s.refs.contains (p.n, c.n) && f c).map (·.n))
+
+/-- a search placed on the nested field: for every `Doc` parent, its children selected by `f`;
+    parents without such a child are left out (the sub-selection is not nullable) -/
+def nestedBy (s : Site) (f : Row → Bool) : List (Nat × List Nat) :=
+  (((s.rows.filter fun p => p.ent = 0).map fun p => (p.n, kidsOf s p f)).foldl
+    (fun acc x => insertPair x acc) []).filter fun x => !x.2.isEmpty
+
+/-- `Doc { kids(search(t)) { … } }`: the child is joined on ITS slot with the index (`query.rs:273`) -/
+def nsearch (s : Site) (t : Word) : List (Nat × List Nat) :=
+  nestedBy s fun c => s.idx.contains (c.slot, t)
+
+/-- what the property asks for: the children whose current text contains `t` -/
+def nmatching (s : Site) (t : Word) : List (Nat × List Nat) :=
+  nestedBy s fun c => c.text.contains t
+
 /-! ### operations -/
 
 inductive Op where
@@ -127,6 +156,9 @@ inductive Op where
   | pull (s t : Nat)
   | q (s : Nat) (e : Ent) (t : Word)
   | qall (s : Nat)
+  | link (s n m : Nat)            -- add the reference kids n -> m (single-site histories only)
+  | qn (s : Nat) (t : Word)       -- nested search
+  | qnall (s : Nat)
 deriving Repr, DecidableEq
 
 def addLogged (e : Ent) (l : List Ent) : List Ent := if l.contains e then l else l ++ [e]
@@ -171,9 +203,21 @@ def localOp (d : Defects) (tick : Nat) (usedRows : List Nat) (s : Site) : Op →
     | none => none
     | some old =>
       some { s with rows := eraseRow n s.rows,
+                    refs := s.refs.filter (fun r => r.1 ≠ n && r.2 ≠ n),
                     tombs := s.tombs ++ [{ n := n, ent := old.ent, dtick := tick }],
                     idx := if d.deleteLeavesIndex then s.idx else idxDel old.slot old.text s.idx,
                     logged := addLogged old.ent s.logged }
+  | .link _ n m =>
+    match findRow n s.rows, findRow m s.rows with
+    | some old, some child =>
+      if n = m || old.ent ≠ 0 || child.ent ≠ 0 then none
+      else if s.refs.contains (n, m) then some s          -- nothing changes: the parent is not rewritten
+      else
+        -- the parent is re-dated and rewritten: its own text is removed and added again
+        let prev := if old.text.isEmpty then none else some old.text
+        some { writeUpdate (s.indexOn old.ent) old { old with ver := tick } prev s with
+                 refs := s.refs ++ [(n, m)], logged := addLogged old.ent s.logged }
+    | _, _ => none
   | _ => none
 
 /-! #### ingestion of the room from another site -/
@@ -228,6 +272,8 @@ inductive Out where
   | skip
   | hits (rows : List Nat)
   | all (res : List (Ent × Word × List Nat))
+  | nhits (res : List (Nat × List Nat))
+  | nall (res : List (Word × List (Nat × List Nat)))
 deriving Repr, DecidableEq
 
 def insertWord (w : Word) : List Word → List Word
@@ -236,14 +282,30 @@ def insertWord (w : Word) : List Word → List Word
 
 def noteWords (ws : List Word) (known : List Word) : List Word := ws.foldl (fun acc w => insertWord w acc) known
 
-def insertNat (w : Nat) : List Nat → List Nat
-  | [] => [w]
-  | h :: t => if w ≤ h then w :: h :: t else h :: insertNat w t
-
-def sortNat (l : List Nat) : List Nat := l.foldl (fun acc w => insertNat w acc) []
-
 def qallOf (s : Site) (words : List Word) : List (Ent × Word × List Nat) :=
   ([0, 1].flatMap fun e => words.map fun t => (e, t, sortNat (search s e t))).filter fun x => !x.2.2.isEmpty
+
+/-- the nested operations: only on single-site histories (references are not modelled across sites) -/
+def stepNested (st : State) (op : Op) : State × Out :=
+  if st.sites.length ≠ 1 then (st, .skip)
+  else
+    match op with
+    | .link si n m =>
+      match st.sites[si]? with
+      | none => (st, .skip)
+      | some s =>
+        match localOp st.d st.tick st.usedRows s (.link si n m) with
+        | none => (st, .skip)
+        | some s1 => ({ st with sites := st.sites.set si s1, tick := st.tick + 1 }, .ok)
+    | .qn si t =>
+      match st.sites[si]? with
+      | none => (st, .skip)
+      | some s => (st, .nhits (nsearch s t))
+    | .qnall si =>
+      match st.sites[si]? with
+      | none => (st, .skip)
+      | some s => (st, .nall ((st.words.map fun t => (t, nsearch s t)).filter fun x => !x.2.isEmpty))
+    | _ => (st, .skip)
 
 def step (st : State) (op : Op) : State × Out :=
   match op with
@@ -299,6 +361,9 @@ def step (st : State) (op : Op) : State × Out :=
       match localOp st.d st.tick st.usedRows s (.del si n) with
       | none => (st, .skip)
       | some s1 => ({ st with sites := st.sites.set si s1, tick := st.tick + 1 }, .ok)
+  | .link si n m => stepNested st (.link si n m)
+  | .qn si t => stepNested st (.qn si t)
+  | .qnall si => stepNested st (.qnall si)
 
 def runOps : State → List Op → State × List Out
   | st, [] => (st, [])
